@@ -71,6 +71,112 @@ do_local (long *v, int nv)
 }
 
 /* ------------------------------------------------------------------ */
+/* kind 2: host name.  [2, optbits, n, bytes.., exp, mrc] */
+static void
+do_host (long *v, int nv)
+{
+    int ob = (int) v[1], n = (int) v[2];
+    const long *b = v + 3;
+    int exp = (int) v[3 + n], mrc = (int) v[4 + n];
+    int rc[2], ascii = 1;
+    if (nv != 3 + n + 2) die ("bad host vector");
+    for (int side = 0; side < 2; side++) {
+        const char *p = place (b, n, side, -1);
+        rc[side] = is_ascii_domain (p, p + n);
+        unplace ();
+    }
+    cnt.calls += 2; cnt.checked++; cnt.pinned++;
+    if (rc[0] != rc[1])
+        viol ("host", "placement-dependent result", 0, ob, b, n, exp, rc[0], rc[1]);
+    else if ((exp == 1) != (rc[0] == 0) || rc[0] > 0)
+        viol ("host", "decision", 0, ob, b, n, exp, rc[0], mrc);
+    else if (rc[0] != mrc)
+        drift_ev ("host", 0, ob, b, n, rc[0], mrc);
+    /* mode 6531 applies the same rules to the A-label form: for an all-ASCII
+     * string nothing that violates them may be accepted */
+    for (int i = 0; i < n; i++) if (b[i] >= 128) ascii = 0;
+    if (ascii && n > 0) {
+        int idn = 0, r;
+        const char *p = place (b, n, 0, -1);
+        r = is_utf8_domain (&idn, p, p + n, false);
+        unplace ();
+        cnt.calls++; cnt.checked++; cnt.pinned += (exp == 0);
+        if (r == 0 && exp == 0)
+            viol ("host", "utf8-domain accepts an invalid host name", 6531, ob, b, n, exp, r, idn);
+        else if (r > 0 || (r < 0 && r != rc[0] && r != -EEAV_IDN_ERROR))
+            viol ("host", "utf8-domain code", 6531, ob, b, n, exp, r, rc[0]);
+    }
+}
+
+/* ------------------------------------------------------------------ */
+/* kind 3: address literal.
+ * [3, n, domain.., exp, family, mrc, mv4, mv6, ni, inner.., v4exp, v6exp, m_ipv4, m_ipv6, m_ipaddr] */
+typedef eav_result_t *(*email_f)(const char *, size_t, bool);
+static const struct { int mode; email_f f; } emails[4] = {
+    { 822, is_822_email }, { 5321, is_5321_email },
+    { 5322, is_5322_email }, { 6531, is_6531_email } };
+
+static void
+sandwich (const char *what, const long *b, int n, int exp, int got, int model)
+{
+    cnt.checked++; if (exp != 2) cnt.pinned++;
+    /* the properties speak about address literals inside a domain part, not about the bare
+     * is_ipv4 / is_ipv6 / is_ipaddr entry points: a disagreement here is model drift only */
+    if ((exp == 1 && got != 1) || (exp == 0 && got != 0) || got != model)
+        drift_ev (what, 0, 0, b, n, got, model);
+}
+
+static void
+do_ip (long *v, int nv)
+{
+    int n = (int) v[1];
+    const long *d = v + 2, *x = v + 2 + n;
+    int exp = (int) x[0], fam = (int) x[1], mrc = (int) x[2];
+    int ni = (int) x[5];
+    const long *in = x + 6, *y = x + 6 + ni;
+    static long buf[1 << 16];
+    int first_rc = 0, first_fl = 0;
+
+    if (nv != 2 + n + 6 + ni + 5) die ("bad ip vector");
+    buf[0] = 'x'; buf[1] = '@';
+    for (int i = 0; i < n; i++) buf[2 + i] = d[i];
+    for (int m = 0; m < 4; m++) for (int tld = 0; tld < 2; tld++) {
+        const char *p = place (buf, n + 2, (m + tld) & 1, -1);
+        eav_result_t *r = emails[m].f (p, n + 2, tld);
+        int rc = r->rc, fl = (r->is_ipv4 ? 1 : 0) | (r->is_ipv6 ? 2 : 0) | (r->is_domain ? 4 : 0);
+        unplace ();
+        eav_result_free (r);
+        cnt.calls++; cnt.checked++; if (exp != 2) cnt.pinned++;
+        if ((exp == 1 && rc != 0) || (exp == 0 && rc >= 0) || rc > 0)
+            viol ("literal", "decision", emails[m].mode, tld, d, n, exp, rc, mrc);
+        else if (rc == 0 && fl != (fam == 4 ? 1 : 2))
+            viol ("literal", "family flag", emails[m].mode, tld, d, n, fam, fl, mrc);
+        else if (rc < 0 && fl != 0)
+            viol ("literal", "flag set on rejection", emails[m].mode, tld, d, n, 0, fl, rc);
+        else if (rc != mrc && m == 0 && tld == 0)
+            drift_ev ("literal", emails[m].mode, 0, d, n, rc, mrc);
+        if (m == 0 && tld == 0) { first_rc = rc; first_fl = fl; }
+        else if (rc != first_rc || fl != first_fl)
+            viol ("literal", tld ? "mode/tld_check dependent" : "mode dependent", emails[m].mode, tld, d, n, first_rc, rc, fl);
+    }
+    /* the bare public validators on the NUL-terminated inner string */
+    {
+        int colon = 0;
+        const char *p;
+        for (int i = 0; i < ni; i++) if (in[i] == ':') colon = 1;
+        p = place (in, ni, 0, -1);
+        sandwich ("ipv4", in, ni, (int) y[0], is_ipv4 (p, p + ni), (int) y[2]);
+        sandwich ("ipv6", in, ni, (int) y[1], is_ipv6 (p, p + ni), (int) y[3]);
+        sandwich ("ipaddr", in, ni, colon ? (int) y[1] : (int) y[0], is_ipaddr (p, p + ni), (int) y[4]);
+        unplace ();
+        p = place (in, ni, 1, -1);
+        if (is_ipv4 (p, p + ni) != is_ipv4 (p, p + ni)) die ("nondeterministic");
+        unplace ();
+        cnt.calls += 4;
+    }
+}
+
+/* ------------------------------------------------------------------ */
 int
 main (int argc, char **argv)
 {
@@ -89,6 +195,8 @@ main (int argc, char **argv)
         cnt.vectors++;
         switch (v[0]) {
         case 1: do_local (v, nv); break;
+        case 2: do_host (v, nv); break;
+        case 3: do_ip (v, nv); break;
         default: die ("unknown vector kind");
         }
     }
